@@ -432,6 +432,10 @@ def check_tbr(mods, c, exp, rows, meta, uc, combos, with_cost, int_dtype, matche
   pd, np, st, tbr = mods['pd'], mods['np'], mods['st'], mods['tbr']
   out = []
   df = to_frame(pd, rows, with_cost, int_dtype)
+  if with_cost and not int_dtype and len(df) % 3 == 0:
+    # columns the analysis of `response` does not use may hold anything, e.g. unknown costs and free-text remarks
+    df.loc[df.index[::4], 'cost'] = float('nan')
+    df['remark'] = [None if k % 3 else 'checked' for k in range(len(df))]
   ndays = c['ntest'] + (c['ncool'] if uc else 0)
   try:
     m = tbr.TBR(use_cooldown=uc)
